@@ -24,7 +24,9 @@ TECHNIQUE = "generation of valid queries from the AST + lexical-variation render
 LEVEL = "proof"
 LEVEL_TEXT = ("Proved: the parser half - C05_complete_tokens: every token sequence the typed token grammar derives is accepted and yields the derived query; the lexer half for the canonical spelling - "
               "C12_roundtrip: str(q) of any well-typed query (nested filters, calls, all operators) lexes to such a token sequence; the converse direction in full - C04_sound: everything accepted is derivable "
-              "from the ABNF; oracle correctness (in_rfc_sound/complete); number and string sublanguage lemmas of Props/C03.v. The headline C03_complete (derivable and valid -> accepted, for EVERY lexical variant: "
+              "from the ABNF; for queries WITHOUT filters the headline in full - C03_complete_filter_free / C03_exact_filter_free (Proofs/LexComplete.v: forward simulation of the lexer along the token grammar; every spelling - "
+              "blanks wherever the lexical layer allows them, shorthand or brackets, either quote style with any escape form, any integer spelling - compiles to the query derived, and compile accepts exactly the spellings); "
+              "oracle correctness (in_rfc_sound/complete); number and string sublanguage lemmas of Props/C03.v. For queries with filters the headline C03_complete (derivable and valid -> accepted, for EVERY lexical variant: "
               "blank space, quote styles, escapes, shorthand, number spellings) is stated there and NOT proved in full (partial): the lexer on every spelling of a token sequence is tied by correspondence. "
               "Every generated valid query must compile, to the generating structure.")
 LEVEL_NOTE = "Partial: full grammar -> lexer+parser completeness is not proved. Trusted: Coq kernel, grammar transcription, renderer (self-checked), extraction and driver."
